@@ -1,4 +1,4 @@
-import Vinegar.Lemmas.MatcherReject
+import Vinegar.Lemmas.MatcherSound
 /-
 C18 — System matcher: grammar, precedence, quoting, evaluation equal the documentation.
 
@@ -19,9 +19,14 @@ What the theorems say about the property:
   unterminated quotes/escapes, empty unquoted pattern/key, unbalanced parentheses, bad regular
   expression).
 * `cache_irrelevant`, `cache_history`, `first_use_eq_cached_use`: the expression cache is a pure memo.
+* `parse_sound`, `parse_iff_rendering`, `reject_every_other_string`, `accepted_meaning`,
+  `renderings_unambiguous`: the converse — EVERY accepted string is a legal rendering of exactly the
+  tree the parser returns, so the legal renderings are exactly the accepted language, every other
+  string raises `ValueError`, and a value returned by `match()` is the documented value of every tree
+  the string is a rendering of. `keyword_before_paren`: the one family in `legal` that is behaviour
+  of the code rather than a promise of the documentation (`(and)`).
 * `checkCase_model`: the checker evaluated on the implementation's observations accepts every model
-  observation. `parse_sound_partial`: unambiguity of the documented renderings (the full converse is
-  the stretch goal, see the comment there). `generated_tables`: the tie to the translator.
+  observation. `generated_tables`: the tie to the translator.
 Terms (`re`, `fnmatch`) are an abstract valuation `am : Atom → σ → Bool`; nothing is assumed of it.
 -/
 namespace Vinegar.C18
@@ -50,7 +55,7 @@ theorem parse_printTop (sty : Style) (hs : sty.ok = true) (t : Expr) (ht : print
   have hl : legalTop sty.pad (print sty t) sty.pad = true := by
     have := hs
     simp only [Style.ok, Bool.and_eq_true] at this
-    simp [legalTop, this.2, legal_print sty hs t ht]
+    simp [legalTop, this.2, legal_print sty hs t ht, endsKeyword_print sty t]
   unfold printTop
   rw [parse_render _ _ _ hl, abstract_print]
 
@@ -64,9 +69,11 @@ example : styles.all Style.ok = true := styles_ok
 
 /-- Precedence `not` > `and` > `or`, left to right: without parentheses
     `not a and b or c` is `((not a) and b) or c` and `a or b and not c` is `a or (b and (not c))`,
-    for all legally spelled terms `a b c` and any (non-empty) whitespace between the words. -/
+    for all legally spelled terms `a b c` (none of them one of the three words written without
+    quotes or prefix) and any (non-empty) whitespace between the words. -/
 theorem precedence_not_and_or (a b c : AtomSyn) (ha : legalAtom a = true) (hb : legalAtom b = true)
-    (hc : legalAtom c = true) (w1 w2 w3 w4 w5 : Str)
+    (hc : legalAtom c = true) (hka : bareKeyword a = false) (hkb : bareKeyword b = false) (hkc : bareKeyword c = false)
+    (w1 w2 w3 w4 w5 : Str)
     (hw : allSpace w1 = true ∧ allSpace w2 = true ∧ allSpace w3 = true ∧ allSpace w4 = true ∧ allSpace w5 = true)
     (hne : w1 ≠ [] ∧ w2 ≠ [] ∧ w3 ≠ [] ∧ w4 ≠ [] ∧ w5 ≠ []) :
     parse (kwNot ++ w1 ++ renderAtom a ++ w2 ++ kwAnd ++ w3 ++ renderAtom b ++ w4 ++ kwOr ++ w5 ++ renderAtom c) =
@@ -81,10 +88,10 @@ theorem precedence_not_and_or (a b c : AtomSyn) (ha : legalAtom a = true) (hb : 
     | cons _ _ => rfl
   constructor
   · have := parse_render [] (.or (.and (.not w1 (.atom a)) w2 w3 (.atom b)) w4 w5 (.atom c)) []
-      (by simp [legalTop, legal, allSpace, level, *] <;> simp_all [allSpace])
+      (by simp [legalTop, legal, endsKeyword, allSpace, level, *] <;> simp_all [allSpace])
     simpa [renderTop, render, abstract] using this
   · have := parse_render [] (.or (.atom a) w1 w2 (.and (.atom b) w3 w4 (.not w5 (.atom c)))) []
-      (by simp [legalTop, legal, allSpace, level, *] <;> simp_all [allSpace])
+      (by simp [legalTop, legal, endsKeyword, allSpace, level, *] <;> simp_all [allSpace])
     simpa [renderTop, render, abstract] using this
 
 /-- The parser is total: every string is either accepted with a tree or rejected with a
@@ -328,8 +335,11 @@ theorem reject_empty_key (kind : Kind) (slash cs : Bool) (k : Str) (h : slash = 
 
 /-- unbalanced parentheses: a legal expression with its closing parenthesis missing, or with one
     closing parenthesis too many -/
-theorem reject_unbalanced (c : Cst) (hl : legal c = true) :
+theorem reject_unbalanced (c : Cst) (hl : legalTop [] c [] = true) :
     parse ('(' :: render c) = .error (.expected ")") ∧ parse (render c ++ [')']) = .error .trailingInput := by
+  have hnk : endsKeyword c = false := by simpa [legalTop] using (by simpa [legalTop] using hl : _ ∧ _).2
+  have hkw : ∀ k, KwOK c k := fun k h => by simp [hnk] at h
+  have hl : legal c = true := by simp [legalTop, allSpace] at hl; exact hl.1
   have hlev := (levels c hl).2.2
   constructor
   · apply parse_of_unary_error _ _ (noSpaceHead_cons '(' _ (by decide))
@@ -337,7 +347,7 @@ theorem reject_unbalanced (c : Cst) (hl : legal c = true) :
     rw [unary_succ_paren]
     unfold parenBody
     have := O_exit c hlev ((render c).length + 1) (some '(') [] (by simp)
-      (fun _ => Or.inr ⟨'(', rfl, Or.inr rfl⟩) (Or.inr (Or.inl rfl))
+      (fun _ => Or.inr ⟨'(', rfl, Or.inr rfl⟩) (Or.inr (Or.inl rfl)) (hkw _)
       (keywordAt_nil _ kwAnd_ne) (keywordAt_nil _ kwOr_ne)
     simp only [List.append_nil] at this
     rw [this]
@@ -347,7 +357,7 @@ theorem reject_unbalanced (c : Cst) (hl : legal c = true) :
     have hdw : dropWs [')'] = [')'] := by
       simpa using dropWs_append [] [')'] rfl (noSpaceHead_cons ')' [] (by decide))
     have := O_exit c hlev ((render c ++ [')']).length + 1) none [')'] (Nat.lt_succ_self _)
-      (fun _ => Or.inl rfl) (Or.inr (Or.inr ⟨')', [], rfl, Or.inr rfl⟩))
+      (fun _ => Or.inl rfl) (Or.inr (Or.inr ⟨')', [], rfl, Or.inr rfl⟩)) (hkw _)
       (by rw [hdw]; exact keywordAt_paren kwAnd ⟨'a', _, rfl, by decide⟩ [])
       (by rw [hdw]; exact keywordAt_paren kwOr ⟨'o', _, rfl, by decide⟩ [])
     rw [this]
@@ -379,28 +389,68 @@ theorem reject_keyword_glued (q : Quote) (hq : q ≠ .none) (s rest : Str)
     exact loop_glued kwAnd _ _ _ _ q.char _ (by cases q <;> decide) rfl ((keywordAt_self kwAnd rest).2 hrest)
   rw [generic_error kwOr _ Expr.or _ _ (by rw [skipWs_nospace none _ hns]; exact hinner)]
 
-/-! ### soundness (stretch goal) -/
+/-! ### soundness: "every other string is rejected … never silently accepted with a different meaning" -/
 
-/-
-Full statement (not proved):
-  theorem parse_sound (s : Str) (e : Expr) (h : parse s = .ok e) :
-      ∃ lead c trail, legalTop' lead c trail = true ∧ renderTop lead c trail = s ∧ abstract c = e
-"every accepted string is a documented rendering of the tree the parser returns". It needs the
-inversion of every parser function (an accepted input decomposes into the pieces `render`
-concatenates). It is also not true for `legal` as defined in `Spec/Matcher.lean`: the code accepts a
-bare keyword as an unquoted shorthand pattern where the character after it is `)`, e.g. `(and)`
-matches the system id "and" (the keyword look-ahead only recognises a keyword followed by whitespace,
-`(` or the end of input), while `legal` — like the grammar comment in `simple_expr.py` — excludes the
-three keywords from unquoted shorthand patterns. `legal'` would have to make that side condition
-depend on the following character. Until then the "never silently another meaning" half is carried by
-(a) the theorem below: the documented renderings are unambiguous, and the parser's answer on each is
-its tree; (b) the mutation stream of the correspondence check (model = implementation on rejected
-and accepted mutants).
--/
+/-- PARSER SOUNDNESS. Whatever string the parser accepts is a legal rendering — optional
+    whitespace around a concrete syntax tree that respects `not` > `and` > `or`, the keyword
+    separation, quoting and escape rules — of EXACTLY the tree the parser returns. Proved by inverting
+    every function of the recursive-descent parser (`Lemmas/MatcherSound.lean`: terms with prefixes,
+    options, quoting and escapes; the `not` level; the `and`/`or` levels and parentheses; whitespace
+    at every position).
+
+    Documented-behaviour note: `legal` contains one family the documentation does not promise — an
+    unquoted prefix-less term spelling `and`, `or` or `not` directly before a closing parenthesis
+    (`(and)`, `(x or not)`), because the code's keyword look-ahead treats only whitespace, `(` and the
+    end of the input as a keyword boundary (`Spec/Matcher.lean`, `bareKeyword`; `keyword_before_paren`
+    below). With that family stated, the set of legal renderings is exactly the accepted language. -/
+theorem parse_sound (s : Str) (t : Expr) (h : parse s = .ok t) :
+    ∃ lead c trail, legalTop lead c trail = true ∧ renderTop lead c trail = s ∧ abstract c = t :=
+  parse_sound_top s t h
+
+/-- accepted with tree `t` ⇔ a legal rendering of `t` (`parse_render` and `parse_sound` together) -/
+theorem parse_iff_rendering (s : Str) (t : Expr) :
+    parse s = .ok t ↔ ∃ lead c trail, legalTop lead c trail = true ∧ renderTop lead c trail = s ∧ abstract c = t := by
+  constructor
+  · exact parse_sound s t
+  · rintro ⟨lead, c, trail, hl, rfl, rfl⟩
+    exact parse_render lead c trail hl
+
+/-- Every string that is not a legal rendering of any tree is rejected: `match()` raises
+    `ValueError` for it, for every valuation of the terms and every system. -/
+theorem reject_every_other_string {σ : Type} (atomOk : Atom → Bool) (am : Atom → σ → Bool) (s : Str)
+    (h : ∀ lead c trail, legalTop lead c trail = true → renderTop lead c trail ≠ s) (sys : σ) :
+    (∃ err, parse s = .error err) ∧ matchObs atomOk am s sys = .raised "ValueError" := by
+  cases hp : parse s with
+  | ok t =>
+    obtain ⟨lead, c, trail, hl, hr, _⟩ := parse_sound s t hp
+    exact absurd hr (h lead c trail hl)
+  | error err => exact ⟨⟨err, rfl⟩, by simp [matchObs, compile, hp]⟩
+
+/-- Never silently another meaning: if `match()` returns a value for `s` at all, then `s` is a
+    legal rendering, and the value is the documented value of EVERY tree `s` is a legal rendering of. -/
+theorem accepted_meaning {σ : Type} (atomOk : Atom → Bool) (am : Atom → σ → Bool) (s : Str) (sys : σ) (b : Bool)
+    (h : matchObs atomOk am s sys = .result b) :
+    (∃ lead c trail, legalTop lead c trail = true ∧ renderTop lead c trail = s) ∧
+    ∀ lead c trail, legalTop lead c trail = true → renderTop lead c trail = s → b = eval am (abstract c) sys := by
+  unfold matchObs compile at h
+  cases hp : parse s with
+  | error err => simp [hp] at h
+  | ok t =>
+    obtain ⟨lead, c, trail, hl, hr, _⟩ := parse_sound s t hp
+    refine ⟨⟨lead, c, trail, hl, hr⟩, ?_⟩
+    intro lead' c' trail' hl' hr'
+    have := parse_render lead' c' trail' hl'
+    rw [hr', hp] at this
+    injection this with this
+    rw [← this]
+    rw [hp] at h
+    cases hok : t.atoms.all atomOk with
+    | true => simp only [hok, if_true] at h; injection h with h; exact h.symm
+    | false => simp [hok] at h
 
 /-- No string has two documented meanings: two legal renderings that are the same string denote
     the same tree — and that tree is what the parser returns for it. -/
-theorem parse_sound_partial (l1 : Str) (c1 : Cst) (t1 : Str) (l2 : Str) (c2 : Cst) (t2 : Str)
+theorem renderings_unambiguous (l1 : Str) (c1 : Cst) (t1 : Str) (l2 : Str) (c2 : Cst) (t2 : Str)
     (h1 : legalTop l1 c1 t1 = true) (h2 : legalTop l2 c2 t2 = true)
     (heq : renderTop l1 c1 t1 = renderTop l2 c2 t2) :
     abstract c1 = abstract c2 ∧ parse (renderTop l1 c1 t1) = .ok (abstract c1) := by
@@ -409,6 +459,25 @@ theorem parse_sound_partial (l1 : Str) (c1 : Cst) (t1 : Str) (l2 : Str) (c2 : Cs
   rw [heq, p2] at p1
   injection p1 with p1
   exact ⟨p1.symm, parse_render l1 c1 t1 h1⟩
+
+/-- The documented-behaviour note in one statement: directly before a closing parenthesis a bare
+    `and` / `or` / `not` is an id-glob term, whatever legal expression precedes it inside the group
+    (`(and)` matches the system id "and"); followed by whitespace, `(` or the end of the input the
+    same word is the keyword and the string is rejected (`reject_keyword_as_operand`). -/
+theorem keyword_before_paren (kw : Str) (hkw : kw ∈ keywords) (ws : Str) (hws : allSpace ws = true) :
+    parse ('(' :: (ws ++ (kw ++ [')']))) = .ok (.atom ⟨none, .glob, kw, false⟩) := by
+  have hu : unquotedOk isStopPattern kw = true := by
+    rw [keywords_eq] at hkw
+    simp at hkw
+    rcases hkw with rfl | rfl | rfl <;> decide
+  have := parse_render [] (.paren ws (.atom ⟨⟨none, .glob, kw, false⟩, true, true, .none, .none⟩) []) []
+    (by simp [legalTop, legal, legalAtom, endsKeyword, hws, hu]; rfl)
+  simpa [renderTop, render, renderAtom, renderPrefix, renderStr, abstract] using this
+
+example : parse "(and)".toList = .ok (.atom ⟨none, .glob, "and".toList, false⟩) :=
+  keyword_before_paren kwAnd (by decide) [] rfl
+example : parse "and".toList = .error .keywordMisplaced :=
+  reject_keyword_as_operand kwAnd [] (Or.inl rfl) (Or.inl rfl)
 
 /-- The literal tables the model reads from `Vinegar.Generated` (regenerated from /repo on every
     run) are the documented ones; the proofs above depend on exactly these facts. -/
